@@ -255,6 +255,16 @@ func c05Run(c *Ctx) {
 			c05Judge(c, &Case{Gen: "comment-shapes", Src: src})
 		}
 	}
+	// 2b3. loops whose rounds depend on a work list filled several items per call, and on bounds written with shifts
+	for _, src := range []string{
+		pre + Lines(Var("q", "[1]"), Var("rounds", "0"), While(BI("len", "q")+" > 0 && rounds < 50", "{ "+Var("n", "q[0]")+" q = "+BI("remove", "q", "0")+"; rounds = rounds + 1; "+If("n < 4", "{ q = "+BI("append", "q", "n * 2", "n * 2 + 1")+"; }")+" }"), Print("rounds"),
+			Var("xs", "[]"), For(Var("b", "0"), "b < 2", "b = b + 1", "{ xs = "+BI("append", "xs", "b", "b + 10", "b + 20")+"; }"), For(Var("i", "0"), "i < "+BI("len", "xs"), "i = i + 1", "{ "+If("xs[i] == 20", "{ "+Print(`"found"`)+" "+Break()+" }")+" "+Print("xs[i]")+" }")),
+		pre + Lines(Var("n", "3"), Var("cnt", "0"), For(Var("mask", "0"), "mask < 1 << n", "mask = mask + 1", "{ cnt = cnt + 1; }"), Print("cnt"), Var("size", "8"), Var("i", "0"), While("i < size >> 1", "{ i = i + 1; }"), Print("i"), IfElse("i >= size >> 2", Print(`"ge"`), Print(`"lt"`)), If("1 << 2 > 3 && 3 <= 1 << 2", Print(`"both"`))),
+	} {
+		if c.Mine() {
+			c05Judge(c, &Case{Gen: "comment-shapes", Src: src})
+		}
+	}
 	// 2c. conditions that are comparisons whose operands are traced probes yielding every kind of value:
 	// each operand is evaluated once per test, whatever it yields
 	for _, items := range []string{`["a", "b", nil]`, `[1, 2, "", 3]`, `[` + True() + `, ` + True() + `, ` + False() + `]`, `["x", "x", "y"]`, `[nil, nil, 0]`, `[[1], [2], nil]`} {
